@@ -4,16 +4,21 @@ From PV Require Import Base.Prelude Model.Paths Model.Include Model.Require
   Generated.T_files_p8 Generated.T_files_build.
 
 Definition inc_root_now : bytes -> bytes -> bytes -> bytes :=
-  get_root_include_path pico8_cart_paths.
+  get_root_include_path pico8_cart_paths root_detection_kind.
 Definition resolve_include_now : bytes -> bytes -> (bytes -> bool) -> bytes -> bytes -> result bytes :=
-  resolve_include pico8_cart_paths.
-Definition resolve_include_fixed_now : bytes -> bytes -> (bytes -> bool) -> bytes -> bytes -> result bytes :=
-  resolve_include_fixed pico8_cart_paths.
+  resolve_include pico8_cart_paths root_detection_kind include_containment_kind.
+(* the variant with plain string-prefix tests (the code before the two `fix:` commits; what a
+   revert of them would regenerate) - kept only to state the refutation lemmas *)
+Definition inc_root_prefix : bytes -> bytes -> bytes -> bytes :=
+  get_root_include_path pico8_cart_paths 0.
+Definition resolve_include_prefix : bytes -> bytes -> (bytes -> bool) -> bytes -> bytes -> result bytes :=
+  resolve_include pico8_cart_paths 0 0.
 
 Definition path_sep_now : Z := hd 0 lua_path_separator.
 Definition placeholder_now : Z := hd 0 lua_path_placeholder.
-Definition require_filter_now : bytes -> bool :=
-  require_filter require_filter_contains require_filter_prefix.
+Definition require_filter_now : bytes -> bool := require_filter require_filter_atoms.
+(* the filter before the two `fix:` commits (only `./` and a leading `/`), for the refutation lemmas *)
+Definition require_filter_old : bytes -> bool := require_filter [(1, [46; 47], []); (2, [47], [])].
 Definition effective_lua_path_now : option bytes -> option bytes -> bytes :=
   effective_lua_path default_lua_path.
 Definition require_candidates_now : bytes -> bytes -> bytes -> list bytes :=
